@@ -411,8 +411,48 @@ def check_C08(ctx):
                                    "K=700 bytes per (input byte + budget-counted event) + 64 KiB, fixed once from flat documents"])
 
 
+# ------------------------------------------------------------------------------------------------
+# C12
+# ------------------------------------------------------------------------------------------------
+def check_C12(ctx):
+    q = ctx.quick()
+    cases = ctx.path("cases.ndjson")
+    pos = ["root", "item", "value", "key", "flow", "payload"]
+    run_mc(ctx, "MC_Quoting", dict(MaxLen=3 if q else 4, Positions=pos, Repaired=True), ["InvRoundTrips", "EmitCase"], workers=8, timeout=3000,
+           cases_out=cases, label="MC_Quoting")
+    ctx.exhaustive = True
+    recs = ctx.path("recs.ndjson")
+    st = run_vh(ctx, ["c12", "--cases", cases, "--out", recs, "--random", 3000 if q else 60000, "--seed", ctx.seed, "--thorough", 0 if q else 1], timeout=20000)
+    ctx.evaluations += st["records"]
+    ctx.distinct_nontrivial += st["nontrivial"]
+    ctx.samples += st["samples"]
+    ctx.notes["f32_bit_patterns_round_tripped"] = st["f32_patterns"]
+    ctx.notes["distinct_float_text_shapes"] = st["float_shapes"]
+    mism = run_tv(ctx, "TV_Quoting", recs, timeout=6000, constants=dict(Repaired=True), shards=12)
+    drift = 0
+    for r in ctx.tlc_runs:
+        pass
+    for i in range(12):
+        p = ctx.path(f"TV_Quoting-{i}.out")
+        if os.path.exists(p):
+            for line in open(p):
+                if line.startswith('<<"TVDRIFT"'):
+                    drift += int(line.split(",")[1].strip(" >\n"))
+    ctx.notes["binding"] = "ok" if drift == 0 else f"drifted ({drift} plain/quoted decisions differ from Quoting!EmittedPlain; not a violation)"
+    classify_mismatches(ctx, mism, recs, {}, "value read back differs from the value written (or emitted float text outside the YAML float grammar)")
+    return finish(ctx, "model_checking",
+                  "strings: every string up to 3/4 symbolic characters over a 16-character adversarial alphabet (TLC, model-level RoundTrips "
+                  "invariant) x 6 positions x default + one rotating option set, ~130 look-alikes and troublemakers and random strings up "
+                  "to 12 characters over a 45-character alphabet x 6 positions x 8 option sets; integers: every width boundary at root / "
+                  "value / key; chars, bool, unit, None; byte arrays <= 2 bytes (sampled in quick) ; f32: every 65521st bit pattern "
+                  "(quick) / all 2^32 (thorough); f64 boundaries + random; every distinct float text shape against the YAML float grammar",
+                  ASSUME_COMMON + ["round trip through the crate's own reader; string positions are root, sequence item, mapping value, "
+                                   "mapping key, flow sequence item, newtype variant payload"])
+
+
 CHECKS = {
     "C02": check_C02,
+    "C12": check_C12,
     "C08": check_C08,
     "C09": check_C09,
     "C10": check_C10,
